@@ -254,9 +254,17 @@ def _analysis(case, r, per_axis):
     X = torch.tensor(np.repeat(x0, K, axis=0), requires_grad=True)
     o2 = core.libcall(fwd, X)
     F = _flat([o2[0]] + list(o2[1]))
-    ok, G = lib(torch.autograd.grad, F, X, torch.tensor(Cg), allow_unused=True)
+    ct = torch.tensor(Cg)
+    ok, G = lib(torch.autograd.grad, F, X, ct, allow_unused=True, retain_graph=True)
     if not ok:
         return r.fail('backward_raise:' + G.bucket, 'backward raised: %s' % G)
+    if not torch.equal(ct, torch.tensor(Cg)):
+        return r.fail('cotangent_mutated', 'the backward pass modified the cotangent tensor it was given')
+    ok, Gb = lib(torch.autograd.grad, F, X, -2.0 * ct, allow_unused=True)
+    if not ok:
+        return r.fail('second_backward_raise:' + Gb.bucket, 'a second backward pass through the same graph raised: %s' % Gb)
+    if G[0] is not None and (Gb[0] is None or float((Gb[0] + 2.0 * G[0]).abs().max()) > 1e-9 * max(float(G[0].abs().max()), 1e-300)):
+        return r.fail('second_backward_differs', 'pulling back -2g through the same graph is not -2 x the pull-back of g')
     if G[0] is None:
         return r.fail('none_grad:x', 'the signal requires grad but received None')
     got = G[0].numpy().reshape(K, n_in)
@@ -368,7 +376,17 @@ def _synthesis(case, r, per_axis):
     r.label('zero_valued_level' if case.get('zero_valued') else None)
     low, highs, ts = build({k: np.repeat(p0[k], K, axis=0) for k in names}, sub)
     y = core.libcall(inv, (low, highs))
-    ok, G = lib(torch.autograd.grad, y.reshape(K, -1), [ts[k] for k in sub], torch.tensor(Cg), allow_unused=True)
+    ct = torch.tensor(Cg)
+    ok, G = lib(torch.autograd.grad, y.reshape(K, -1), [ts[k] for k in sub], ct, allow_unused=True, retain_graph=True)
+    if ok:
+        if not torch.equal(ct, torch.tensor(Cg)):
+            return r.fail('cotangent_mutated', 'the backward pass modified the cotangent tensor it was given')
+        ok2, Gb = lib(torch.autograd.grad, y.reshape(K, -1), [ts[k] for k in sub], -2.0 * ct, allow_unused=True)
+        if not ok2:
+            return r.fail('second_backward_raise:' + Gb.bucket, 'a second backward pass through the same graph raised: %s' % Gb)
+        for g1_, g2_ in zip(G, Gb):
+            if g1_ is not None and (g2_ is None or float((g2_ + 2.0 * g1_).abs().max()) > 1e-9 * max(float(g1_.abs().max()), 1e-300)):
+                return r.fail('second_backward_differs', 'pulling back -2g through the same graph is not -2 x the pull-back of g')
     out_may_raise = mode == 'reflect' and any((n % 2 == 0 and n <= L - 2) or (n % 2 == 1 and n <= L - 1)
                                               for n, L in zip(out_shape, Ls))
     if not ok:
